@@ -60,6 +60,34 @@ fn run(f: &str, a: &[&str]) -> String {
         }
         "div_3x2_ref" => out_z(d::div_3x2_ref(z128(a[0]), z64(a[1]), z128(a[2])).into()),
         "reciprocal_ref" => out_z(d::reciprocal_ref(z64(a[0])).into()),
+        // SEARCH AID, not a verdict: scan `count` divisors of table row `row` (pseudo-random and near both
+        // row ends) for one whose reciprocal differs from floor((2^128 - 1) / d) - 2^64; the divisors
+        // found are fed back as ordinary `reciprocal` cases, whose verdict comes from the Coq model.
+        "recip_scan" => {
+            let (row, count, mut x) = (z64(a[0]), z64(a[1]), z64(a[2]) | 1);
+            let lo = (256 + row) << 55;
+            let mut found: Vec<String> = Vec::new();
+            for k in 0..count {
+                x ^= x << 13;
+                x ^= x >> 7;
+                x ^= x << 17;
+                let off = match k % 4 {
+                    0 => x >> 9,                       // anywhere in the row
+                    1 => x >> 17,                      // the low 1/256 of the row
+                    2 => ((1u64 << 55) - 1) - (x >> 17), // the high 1/256 of the row
+                    _ => x >> 13,
+                };
+                let dd = lo + (off & ((1u64 << 55) - 1));
+                let exact = (u128::MAX / u128::from(dd)) as u64;
+                if d::reciprocal(dd) != exact {
+                    found.push(format!("{dd:x}"));
+                    if found.len() >= 24 {
+                        break;
+                    }
+                }
+            }
+            format!("S:{}", found.join(","))
+        }
         _ => format!("X unknown-fn {f}"),
     }
 }
